@@ -65,6 +65,7 @@ type report struct {
 	// when repeated - the difference comes from something the simulator does
 	// not own (go/packages' parser goroutines), not from the schedule
 	CanonicalUnstable bool `json:"canonical_unstable"`
+	StaleRuns         int  `json:"runs_over_stale_outputs"`
 }
 
 func main() {
@@ -116,6 +117,7 @@ func main() {
 		order = append(order, k)
 	}
 	order = append(order, 0, 0, 0) // the canonical schedule again: it must reproduce itself
+	canonicalOK := false
 	for pos, k := range order {
 		if only >= 0 && k != 0 && k != only {
 			continue
@@ -136,6 +138,14 @@ func main() {
 				{Mode: dartGen, Output: "unused"},
 			}
 			conf[f] = acts
+			if k%3 == 1 && canonicalOK {
+				// history: an older and longer generation is already on disk at
+				// every output path; the new run must replace it entirely
+				for _, a := range acts[:4] {
+					os.WriteFile(a.Output, []byte(strings.Repeat("-- stale line of an older, longer output\n", 4000)), 0o644)
+				}
+				rep.StaleRuns++
+			}
 		}
 		fmts = generator.Formatters{}
 		r := &rng{x: seed*1000003 + uint64(k)}
@@ -185,6 +195,9 @@ func main() {
 		}
 		if k == 0 {
 			rep.Canonical = d
+			// (stale files are only planted when the command is known to complete:
+			// a run that fails before writing legitimately leaves the disk alone)
+			canonicalOK = runErr == nil && simErr == nil && len(sim.Failures) == 0
 		} else if d != rep.Canonical && rep.FirstBad < 0 {
 			rep.FirstBad, rep.Other, rep.Perturbed = k, d, perturbed
 		}
